@@ -95,14 +95,17 @@ class Array:
         self.mk = mk
         self.length = length
 
-    def get(self, idx):
+    def get(self, idx, alias=None):
+        alias = alias or may_alias
         k = idx.key()
         if k in self.elems:
             return self.elems[k][1], self
         for k2, (i2, v2) in self.elems.items():
-            if may_alias(idx, i2):
-                # unknown relation with a written slot: value unknown
-                return None, self
+            if alias(idx, i2):
+                # unknown relation with a known slot: an unconstrained fresh element over-approximates both cases
+                if self.mk is None:
+                    return None, self
+                break
         if self.default is not None:
             return self.default, self
         if self.mk is None:
@@ -112,11 +115,12 @@ class Array:
         n.elems[k] = (idx, v)
         return v, n
 
-    def set(self, idx, v):
+    def set(self, idx, v, alias=None):
+        alias = alias or may_alias
         n = Array(self.name, self.elems, self.default, self.mk, self.length)
         k = idx.key()
         for k2, (i2, v2) in list(n.elems.items()):
-            if k2 != k and may_alias(idx, i2):
+            if k2 != k and alias(idx, i2):
                 n.elems[k2] = (i2, Opaque('havoc'))
         n.elems[k] = (idx, v)
         return n
